@@ -28,7 +28,7 @@ from lib import common, vmcheck
 
 def _outcome(dumpfile, rc, err):
     """canonical outcome of a bcdump run: ('end', END-line-without-steps, OUT) / ('heap',) / ('crash', detail)"""
-    end, out, compiled, ngc = None, "", None, 0
+    end, out, compiled, ngc, roots = None, "", None, 0, None
     try:
         for l in open(dumpfile, errors="replace"):
             if l.startswith("END "):
@@ -44,6 +44,8 @@ def _outcome(dumpfile, rc, err):
                     pass
             elif l.startswith("COMPILE "):
                 compiled = l.split()[1]
+            elif l.startswith("GCROOTS mismatch") and roots is None:
+                roots = l.strip()
             elif l.startswith("PEAK "):
                 m = re.search(r"collections=(\d+)", l)
                 ngc = int(m.group(1)) if m else 0
@@ -60,7 +62,7 @@ def _outcome(dumpfile, rc, err):
     if end is None or "AddressSanitizer" in err or "runtime error" in err or rc < 0 or rc >= 128:
         m = re.search(r"(AddressSanitizer: [a-z-]+|runtime error: [^\n]{0,80}|Assertion[^\n]{0,100})", err)
         return ("crash", m.group(1) if m else "rc=%s %s" % (rc, err[-200:].replace("\n", " | ")))
-    return ("end", end, out, ngc)
+    return ("end", end, out, ngc, roots)
 
 
 def run_gcschedule(ctx, progs, mems=(0, 700), schedules=("default", "every", "seed:3"), max_steps=400000, prefix="gc-schedule"):
@@ -128,6 +130,15 @@ def run_gcschedule(ctx, progs, mems=(0, 700), schedules=("default", "every", "se
                 if ref2 is None:
                     continue
                 stats["compared"] += 1
+                if len(o) > 4 and o[4] and not reported and nrep[0] < 5:
+                    reported = True
+                    nrep[0] += 1
+                    ctx.violation("%s:roots-not-at-instruction-boundary:%s" % (prefix, pid),
+                                  "program %s (schedule %s, heap %s): a collection was run on a root set that is not the machine's stack and "
+                                  "environment at the instruction boundary (%s): cells of a frame that is already gone stay allocated, or the "
+                                  "environment of the resumed function is not a root" % (pid, sch, mem or "default", o[4]),
+                                  {"program": pid, "source": open(path, errors="replace").read()[:6000], "schedule": sch, "mem": mem, "observed": o[4],
+                                   "how": "harness/vm/bcdump --peak --gc %s %s <program>" % (sch, ("--mem %d" % mem) if mem else "")})
                 if o[3] > 0:
                     stats["collections_forced_runs"] += 1
                     stats["collections"] = stats.get("collections", 0) + o[3]
